@@ -54,13 +54,15 @@ def run(tier, corrupt=0):
     c.setv("zones", len(zones_seen))
     c.setv("events_within_2h_of_a_transition", near)
     c.setv("verdicts", dict(verdicts))
+    c.setv("events_of_zones_with_unseparated_transitions_not_judged", verdicts.get("unseparated", 0))
     for l in lines[:1] + lines[len(lines) // 2:len(lines) // 2 + 1]:
         e = json.loads(l)
         c.sample({k: e.get(k) for k in ("zone", "src", "t_utc", "input_zone", "naive_t", "state_tz", "next_tz", "next_naive", "table")})
     c.setv("rule", "one event = (zone, transition, expression, instant at -2h..+2h (and +-1 day) around the transition, input zone); "
                    "distinct_nontrivial = events whose wall-clock time or an interval bound is ambiguous (fold) or non-existent (gap)")
     c.assumptions += ["the offset table is extracted from chrono-tz by probing offset_from_utc_datetime (12 h steps + bisection): zone rules are data",
-                      "transitions are further apart than the wall-clock jumps they cause (checked on every logged table; required for monotonicity)",
+                      "transitions are further apart than the wall-clock jumps they cause (checked on every logged table; required for monotonicity; "
+                      "the events of a zone whose table breaks it are counted, not judged)",
                       "the naive API is the oracle for the wall-clock evaluation (differential); gap mapping follows the code's minute stepping",
                       "transitions 1970-2037 only (TLC integers are 32-bit seconds)"]
     return c.finish()
